@@ -6,6 +6,9 @@ use crate::posit_ref::QT;
 use crate::quire::{Clause, Failure};
 use crate::rngsim::{Entry, RCase, RClause, RFailure};
 
+/// (the recorded step / expected / observed fields are for the human reader and for the
+/// fresh-process comparison done on the printed lines; the replay path recomputes them)
+#[allow(dead_code)]
 pub enum Replay {
     Quire { property: String, case: Case, clause: Clause, step: usize, expected: String, observed: String },
     Rng { case: RCase, clause: RClause, sample: usize, observed: String },
